@@ -141,6 +141,7 @@ type runner struct {
 	gateFn    atomic.Value    // func(pt string)
 	scratch   map[string]*int // per-group memory written WITHOUT synchronisation by the callbacks (race-detector runs)
 	shutdowns int32
+	dfltCtr   int32
 }
 
 func (r *runner) violation(what string) {
@@ -192,6 +193,17 @@ func (r *runner) body(c int, g string, nested bool) {
 }
 
 func (r *runner) submit(g string) {
+	if n := atomic.AddInt32(&r.dfltCtr, 1); n%7 == 3 {
+		// a resource with the DEFAULT group (its resource name), whose handler was registered on the service
+		// through a mount point: callbacks for one such resource must be serialised like any other group
+		g = fmt.Sprintf("svc.sub.dflt.%d", n%2)
+		c := r.newCb(g)
+		r.pushSub(g, c)
+		if err := r.s.With(g, func(res.Resource) { r.body(c, g, false) }); err != nil {
+			r.violation("with-error: " + err.Error())
+		}
+		return
+	}
 	c := r.newCb(g)
 	r.pushSub(g, c)
 	nested := r.sc.Nested && c%11 == 0
@@ -246,7 +258,13 @@ func (r *runner) sendRequest(cn *conn, inCh chan *nats.Msg, g string) (ok bool) 
 	c := r.newCb(g)
 	// handler pattern: item.$c.$g  with Group("${g}") ; group "" is not expressible as a token -> use Parallel resource par.$c
 	var subj string
-	if g == "" {
+	if c%6 == 0 {
+		// a request for a resource no handler matches: still enqueued (group = resource name) and answered
+		// with system.notFound by a worker
+		g = fmt.Sprintf("svc.none.%d", c)
+		r.cbGroup.Store(c, g)
+		subj = "get." + g
+	} else if g == "" {
 		subj = fmt.Sprintf("get.svc.par.%d", c)
 	} else {
 		subj = fmt.Sprintf("get.svc.item.%d.%s", c, g)
@@ -279,6 +297,9 @@ func (r *runner) newService(c *conn) *res.Service {
 		r.body(c, q.PathParam("g"), false)
 		q.NotFound()
 	}))
+	sub := res.NewMux("")
+	s.Mount("sub", sub)
+	s.Handle("sub.dflt.$k", res.GetResource(func(q res.GetRequest) { q.NotFound() }))
 	s.Handle("par.$c", res.Parallel(true), res.GetResource(func(q res.GetRequest) {
 		c, _ := strconv.Atoi(q.PathParam("c"))
 		r.body(c, "", false)
@@ -866,6 +887,9 @@ func (c *conv) convert(log []entry) error {
 				if log[j].gid == e.gid {
 					if log[j].kind == "run" {
 						cb = log[j].n
+					} else if log[j].kind == "conn-publish" && strings.HasPrefix(log[j].s, "R") {
+						// the callback of a request for an unmatched resource: processRequest replies notFound itself
+						cb, _ = strconv.Atoi(log[j].s[1:])
 					}
 					break
 				}
